@@ -38,7 +38,8 @@ fn prim_int(t: &Type) -> Option<String> {
 
 fn is_f32_type(t: &Type) -> bool {
     if let Type::Path(tp) = t {
-        return tp.qself.is_none() && tp.path.is_ident("f32");
+        // f64 is shadowed as well: the model is exact rational arithmetic on a dyadic grid, so the two widths do not differ in it
+        return tp.qself.is_none() && (tp.path.is_ident("f32") || tp.path.is_ident("f64"));
     }
     false
 }
@@ -96,7 +97,7 @@ impl VisitMut for Rw {
         // usable in const / static initialisers (Neg for Sx is not a const fn)
         if let Expr::Unary(syn::ExprUnary { op: syn::UnOp::Neg(_), expr, .. }) = e {
             if let Expr::Lit(ExprLit { lit: Lit::Float(f), .. }) = &**expr {
-                if f.suffix() != "f64" {
+                {
                     let root = self.root.clone();
                     let mut digits = f.base10_digits().to_string();
                     if digits.ends_with('.') {
@@ -113,7 +114,7 @@ impl VisitMut for Rw {
         match e {
             Expr::Lit(ExprLit {
                 lit: Lit::Float(f), ..
-            }) if f.suffix() != "f64" => {
+            }) => {
                 let mut digits = f.base10_digits().to_string();
                 if digits.ends_with('.') {
                     digits.push('0');
@@ -123,7 +124,7 @@ impl VisitMut for Rw {
             }
             Expr::Lit(ExprLit {
                 lit: Lit::Int(i), ..
-            }) if i.suffix() == "f32" => {
+            }) if i.suffix() == "f32" || i.suffix() == "f64" => {
                 let lit = syn::LitFloat::new(&format!("{}.0f32", i.base10_digits()), i.span());
                 *e = parse_quote!(#root::symnum::lit(#lit));
             }
@@ -134,7 +135,7 @@ impl VisitMut for Rw {
         visit_mut::visit_path_mut(self, p);
         let root = &self.root;
         // bare `f32` (type or first segment of `f32::MAX`)
-        if p.leading_colon.is_none() && !p.segments.is_empty() && p.segments[0].ident == "f32" {
+        if p.leading_colon.is_none() && !p.segments.is_empty() && (p.segments[0].ident == "f32" || p.segments[0].ident == "f64") {
             let rest: Vec<_> = p.segments.iter().skip(1).cloned().collect();
             let mut np: syn::Path = parse_quote!(#root::symnum::Sx);
             for s in rest {
@@ -147,7 +148,7 @@ impl VisitMut for Rw {
         let segs: Vec<String> = p.segments.iter().map(|s| s.ident.to_string()).collect();
         if segs.len() >= 3
             && (segs[0] == "std" || segs[0] == "core")
-            && segs[1] == "f32"
+            && (segs[1] == "f32" || segs[1] == "f64")
             && segs[2] == "consts"
         {
             let rest: Vec<_> = p.segments.iter().skip(3).cloned().collect();
@@ -160,12 +161,14 @@ impl VisitMut for Rw {
     }
     fn visit_item_use_mut(&mut self, u: &mut syn::ItemUse) {
         let s = quote!(#u).to_string();
-        if s.contains("std :: f32 :: consts") || s.contains("core :: f32 :: consts") {
+        if s.contains("std :: f32 :: consts") || s.contains("core :: f32 :: consts") || s.contains("std :: f64 :: consts") || s.contains("core :: f64 :: consts") {
             let root = &self.root;
             let rs = quote!(#root).to_string();
             let ns = s
                 .replace("std :: f32 :: consts", &format!("{} :: symnum :: consts", rs))
-                .replace("core :: f32 :: consts", &format!("{} :: symnum :: consts", rs));
+                .replace("core :: f32 :: consts", &format!("{} :: symnum :: consts", rs))
+                .replace("std :: f64 :: consts", &format!("{} :: symnum :: consts", rs))
+                .replace("core :: f64 :: consts", &format!("{} :: symnum :: consts", rs));
             *u = syn::parse_str(&ns).expect("use rewrite");
         }
     }
